@@ -357,3 +357,18 @@ CHECKS["C15"] = {
     "partial": [], "rule": _async_rule, "trusted": _async_trusted, "assumptions": [],
     "exhaustive_blocks_quick": "all event sequences over {write, finish 1..4} of length <= 5 (3906)", "exhaustive_blocks_thorough": "length <= 6 (19531)",
 }
+
+DV = "SycVerif.DomView."
+CHECKS["C09"] = {
+    "manifest_text": "Lean theorems C12_keys (the keys the server stamps are the dense pre-order numbering, which is also the order in which the hydrating build requests them — both sides run the same builder code with the same counter), C08_roundtrip (the server output parses back to exactly the tree that was built, so the elements to adopt exist under their keys) and the client-update theorems of C05 (after hydration the instance is a mounted view: later writes keep the document equal to a fresh client render). Tied to /repo end to end: for thousands of generated views the REAL server renderer (harness/native) produces the HTML, the in-process DOM parses it, the REAL hydrate_in_scope (harness/dom, feature hydrate) hydrates it with the same view and state; checked: no panic, every server-rendered element adopted exactly once (same node identities and order, data-hydrated stamp), no element created or moved (mutation log), visible tree unchanged, then after every signal write the visible tree equals a client render of the current state and equals the Lean DomView model (element identities included).",
+    "manifest_note": "Partial: hydration itself (HydrateNode::append_child adoption of markers and dynamic text, HYDRATE_NODES lookup) is not modelled step by step in Lean; the end-to-end claim rests on the correspondence plus the three theorem groups. Known finding D12: hydrating the Show component (hidden element children, bare text children, dynamic text children) — reported as KNOWN-FINDING; NoHydrate/NoSsr/lists are not generated yet.",
+    "lean_modules": ["SycVerif.Props.C12Keys", "SycVerif.Props.C08"],
+    "theorems": [SS + "C12_keys", SS + "C12_keys_nodup", HT + "C08_roundtrip"],
+    "engines": [{"harness": "dom", "engine": "hydrate", "generator": {"harness": "native", "engine": "hydrategen"}}],
+    "classes": ["hydrate-panic", "hydrate-adopt", "hydrate-visible", "hydrate-stale", "hydrate-show"],
+    "status": "keys_agree and the round trip proved; adoption procedure covered by end-to-end correspondence; Show hydration is a known finding",
+    "partial": [{"theorem": "marker_adoption / C09_partial", "missing": "Lean model of HydrateNode::append_child (k-th marker finds the k-th <!--/-->, dynamic text splice) and of hydrate_in_scope"}],
+    "rule": "views generated by the same generator as C05 (elements with static/dynamic/boolean attributes, text, dynamic text, dynamic views with 0-3 alternatives incl. empty and multi-node ones, fragments; depth <= 3, <= 10 nodes; Show only in 8 hand-written families) with 1-3 signals, random initial state and 0-5 writes after hydration; 3000 (quick) / 100000 (thorough) views; SSR strings come from the real render_to_string. distinct = distinct request line; every case is non-trivial (hydration is always exercised)",
+    "trusted": ["in-process DOM incl. its HTML parser for set_inner_html (shim/web-sys)", "two separate builds of sycamore-web (SSR back end in harness/native, hydrate back end in harness/dom) fed the same view description"],
+    "assumptions": ["sync SSR mode", "same view and same initial state on both sides"],
+}
